@@ -211,6 +211,13 @@ def _adds(t, conds, out):
                 g = ()
                 if len(arm) == 3 and isinstance(arm[1], tuple) and arm[1][:1] == ("guard",):
                     g = ((("c", arm[1][1]), True),)
+                elif len(arm) == 2 and isinstance(pk, str) and pk.endswith(" if .."):
+                    gs = sym.PHI_GUARDS.get((key, pk), ())
+                    if len(gs) != 1:
+                        raise NotAComprehension("guard of arm `%s` not known" % pk)
+                    pk = pk[:-len(" if ..")]
+                    own = (("arm", key[1], pk), True)
+                    g = ((("c", next(iter(gs))), True),)
                 bases.append(_adds(v, conds + earlier + (own,) + g, out))
                 earlier = earlier + ((("armg", key[1], pk, g[0][0][1] if g else None), False),)
         else:
